@@ -303,4 +303,28 @@ theorem parse_abs_eq_spec (H : List Doc) (h : historyOk H) :
     have := key (((d :: ds).map (·.root)).map Node.depth) 0 o.depth (List.mem_map_of_mem ho)
     omega
 
+theorem le_foldl_max (l : List Nat) (init x : Nat) (hx : x ∈ l) : x ≤ l.foldl max init := by
+  induction l generalizing init with
+  | nil => cases hx
+  | cons a as ih =>
+    simp only [List.foldl_cons]
+    simp only [List.mem_cons] at hx
+    rcases hx with rfl | hx
+    · have mono : ∀ (l : List Nat) (i : Nat), i ≤ l.foldl max i := by
+        intro l
+        induction l with
+        | nil => intro i; exact Nat.le_refl _
+        | cons b bs ihb => intro i; exact Nat.le_trans (Nat.le_max_left i b) (ihb _)
+      exact Nat.le_trans (Nat.le_max_right init x) (mono as _)
+    · exact ih _ hx
+
+/-- whatever `Matches` a non-empty list of occurrences has exactly the schema `specOfDocs` computes for them -/
+theorem matches_abs_eq_specOfDocs {e : Elem} {occs : List Node} (h : Matches e occs) (hne : occs ≠ []) :
+    e.abs = specOfDocs occs := by
+  unfold specOfDocs
+  apply abs_eq_specOf h _ hne
+  intro o ho
+  have := le_foldl_max (occs.map Node.depth) 0 o.depth (List.mem_map_of_mem ho)
+  omega
+
 end Xsg
